@@ -985,8 +985,16 @@ def rule_cast(rep, d, cls):
                     bad = (f, "a path does not return")
                     break
                 rt = ir.sx(ir.ekids(ret[1])[0]) if ir.ekids(ret[1]) else ("none",)
-                calls_cast = any(s[0] == "call" and s[1][0] == "mem" and s[1][2] == "cast" for s in ir.subterms(rt))
-                null_ok = conds.get(("bin", "==", ("ref", pname), ("lit", "nullptr")), (None,))[0] is False or conds.get(("bin", "!=", ("ref", pname), ("lit", "nullptr")), (None,))[0] is True
+                # only the arm that is evaluated on this path counts (flow emits events of the chosen ?: arm only)
+                calls_cast = any(s_[0] == "ev" and s_[1].get("kind") == "CXXMemberCallExpr" and ir.sx(s_[1])[0] == "call" and ir.sx(s_[1])[1][0] == "mem" and ir.sx(s_[1])[1][2] == "cast"
+                                 for s_ in path)
+                NULLP = ("lit", "nullptr")
+                PR = ("ref", pname)
+
+                def truth(op, a_, b_):
+                    return conds.get(("bin", op, a_, b_), (None,))[0]
+                null_ok = (truth("==", PR, NULLP) is False or truth("==", NULLP, PR) is False or truth("!=", PR, NULLP) is True or truth("!=", NULLP, PR) is True
+                           or conds.get(PR, (None,))[0] is True)
                 typed = [(v, nd) for t, (v, nd) in conds.items() if t[0] == "call" and t[1][0] == "mem" and t[1][2] == "is_typed"]
                 typed_ok = any(v is True for v, nd in typed)
                 tid_ok = True
@@ -1005,8 +1013,19 @@ def rule_cast(rep, d, cls):
                         bad = (ret[1], "the type test does not use typeid(T)")
                         break
                 else:
-                    if rt != ("lit", "nullptr"):
-                        bad = (ret[1], "the failure path returns `%s`, expected nullptr" % ir.show(rt))
+                    # value returned on this path: a plain nullptr, or the arm of a ?: chosen by the path's conditions
+                    def chosen(t):
+                        while t[0] == "cast":
+                            t = t[3]
+                        if t[0] == "cond":
+                            # which arm?  the arm that does not call cast (no cast event on this path)
+                            a1, a2 = t[2], t[3]
+                            has1 = any(x[0] == "call" and x[1][0] == "mem" and x[1][2] == "cast" for x in ir.subterms(a1))
+                            return chosen(a2 if has1 else a1)
+                        return t
+                    rv = chosen(rt)
+                    if rv != ("lit", "nullptr"):
+                        bad = (ret[1], "the failure path returns `%s`, expected nullptr" % ir.show(rv))
                         break
             if bad:
                 rep.violates(R, lab, "type check dominates the storage cast", where=d.where(bad[0]), detail=bad[1])
@@ -1046,9 +1065,9 @@ def rule_cast(rep, d, cls):
             for s in path:
                 if s[0] == "cond":
                     t = ir.sx(s[1])
-                    if t == ("bin", "==", ("ref", p), ("lit", "nullptr")):
+                    if t in (("bin", "==", ("ref", p), ("lit", "nullptr")), ("bin", "==", ("lit", "nullptr"), ("ref", p))):
                         isnull = s[2]
-                    elif t == ("bin", "!=", ("ref", p), ("lit", "nullptr")):
+                    elif t in (("bin", "!=", ("ref", p), ("lit", "nullptr")), ("bin", "!=", ("lit", "nullptr"), ("ref", p))):
                         isnull = not s[2]
                     elif t == ("ref", p):
                         isnull = not s[2]
